@@ -67,7 +67,7 @@ func run(c *vf.Ctx) {
 	var samples []map[string]any
 	vf.Par(len(u.Cmds), func(i int) {
 		cmd := u.Cmds[i]
-		w := &worker{c: c, t: tally, cmd: cmd, lat: cmd.Lattices(c.Thorough())}
+		w := &worker{c: c, t: tally, cmd: cmd, lat: refsmb.WithoutFormatVariants(cmd.Lattices(c.Thorough()))}
 		w.prepare()
 		for _, full := range []bool{false, true} {
 			bound := 2
@@ -594,6 +594,24 @@ func typeLevel(c *vf.Ctx) {
 				return fmt.Sprintf("Header.Unmarshal(%x): %s = %#x, want %#x (%v)", want, f.Name, fieldOf(g, f.Name), fieldOf(h, f.Name), uerr)
 			})
 		}
+	}
+	// the 32-bit process id through its accessor: high word little-endian at offset 12, low word at offset 26
+	for _, pid := range append(append([]uint64{}, enum.ByteDistinct(4)...), 0x1E240, 0x10000, 0xFFFF, 0xFFFFFFFF, 1, 0) {
+		h := header.NewHeader()
+		h.SetPID(uint32(pid))
+		out, err := h.Marshal()
+		ok := err == nil && len(out) == 32 && out[12] == byte(pid>>16) && out[13] == byte(pid>>24) && out[26] == byte(pid) && out[27] == byte(pid>>8)
+		c.Check("C05/header/SetPID/high-word-at-12-low-word-at-26-little-endian", ok, func() string {
+			return fmt.Sprintf("Header.SetPID(%#x).Marshal() = %x (%v): MS-CIFS 2.2.3.1 wants PIDHigh=%04x little-endian at offset 12 and PIDLow=%04x little-endian at offset 26", pid, out, err, uint16(pid>>16), uint16(pid))
+		})
+		g := header.NewHeader()
+		want := make([]byte, 32)
+		copy(want, []byte{0xFF, 'S', 'M', 'B'})
+		want[12], want[13], want[26], want[27] = byte(pid>>16), byte(pid>>24), byte(pid), byte(pid>>8)
+		_, uerr := g.Unmarshal(want)
+		c.Check("C05/header/GetPID/reads-ms-cifs-layout", uerr == nil && uint64(g.GetPID()) == pid, func() string {
+			return fmt.Sprintf("Header.Unmarshal(%x).GetPID() = %#x (%v), want %#x", want, g.GetPID(), uerr, pid)
+		})
 	}
 }
 
